@@ -102,7 +102,7 @@ PROPS = {
                   "C07_delivered_to_abandoned_op_refuted", "C07_delivered_to_finished_unpolled_op_refuted",
                   "C07_close_future_never_started_refuted", "C07_all_closed_at_rest_refuted",
                   "C07_pipe_fallback_wraps_regular", "C07_pipe_fallback_only_in_poll",
-                  "C07_pipe_fallback_requested_kind_refuted"],
+                  "C07_pipe_fallback_requested_kind_refuted", "C07_close_restarted_after_eintr_h30_refuted"],
         rule="one splitmix64 stream per case (VERIF_SEED, index) on the simulated kernel: ring with 1, 2 or 4 submission "
              "slots, random 32-bit start counters, no direct descriptor table or one of 2, 4 or 8 slots; 6..40 events "
              "from one of four weight profiles (balanced / many drops between ring polls / futures abandoned / "
@@ -122,7 +122,8 @@ PROPS = {
              "distribution tags pipe-fallback* count requested kind, pipe2 ran / future gone, and how the two AsyncFds "
              "were closed: drop with room, drop with the queue full, close()); Ring::poll; drop of an AsyncFd (queue "
              "with room or full); close(); poll / drop of a close future before its first poll, with a full queue, "
-             "after submission, after completion}; every history ends with an orderly wind-down (take arrived "
+             "after submission, after completion; one CLOSE in four of a close() future is answered with EINTR, the "
+             "descriptor being closed all the same}; every history ends with an orderly wind-down (take arrived "
              "results, drop futures and descriptors, two ring polls) while the ring exists, after which the process "
              "descriptor table is compared with the oracle's table; non-trivial = at least "
              "one descriptor issued and one closed; distinct by the Coq case term",
